@@ -9,6 +9,7 @@ CONSTANTS Nib = {0, 1, 15}
           Depth = 0
           NBatch = 0
           NKeys = 4
+          Encs = {"nil"}
           BOps <- OpsPool
           BatchLens = {4}
           BatchSet <- MCBatchSet
